@@ -77,6 +77,7 @@ class FakeConn(FakeBase):
             raise real_socket.error(errno.EAGAIN, "would block")
         r = self.recv_orc.pop(0)
         if r[0] == 'D':
+            self.got = getattr(self, "got", b"") + bytes(r[1])
             return bytes(r[1])
         if r[0] == 'X':
             return b''
@@ -225,3 +226,91 @@ def run_server(cas, ops, via_service_all=False):
         return out
     finally:
         serving.socket = saved
+
+
+# ------------------------------------------------------------------------------------------
+# composite entry points: the stacks are serviced ONLY through serviceAll()
+
+def run_server_all(cas, passes):
+    """cas: ports of peers accepted by a first (data-less) serviceAll;
+    passes: list of {ca: [recv results]} -- one serviceAll() per element.
+    returns (obs, got): obs per pass = [(ca, alive, rxbs, cutoff, [delivered packets...]) per ca in cas order]
+    or ('EXC:Name',); got = {ca: bytes the socket double handed out}"""
+    from ioflo.aio.tcp import serving
+    from ioflo.aio.proto import stacking
+    w = World()
+    saved = serving.socket
+    serving.socket = FakeSocketModule(w, "server")
+    out = []
+    try:
+        delivered = {ca: [] for ca in cas}
+
+        class Recording(stacking.TcpServerStack):
+            def _serviceOneRxPkt(self):
+                pkt, ha = self.rxPkts[0]
+                if ha in self.haRemotes:      # messagize hands it to that remote, else drops it
+                    delivered[ha[1]].append(bytes(pkt.packed))
+                super(Recording, self)._serviceOneRxPkt()
+
+        srv = Recording(ha=('127.0.0.1', 9000))
+        socks = {}
+        for ca in cas:
+            s = FakeConn(w, ('127.0.0.1', 9000), ('127.0.0.1', ca))
+            socks[ca] = s
+            w.pending.append((s, ('127.0.0.1', ca)))
+        try:
+            srv.serviceAll()
+            for orcs in passes:
+                for ca, orc in orcs.items():
+                    socks[ca].recv_orc = list(orc)
+                srv.serviceAll()
+                for ca in cas:
+                    socks[ca].recv_orc = []
+                row = []
+                for ca in cas:
+                    ix = srv.handler.ixes.get(('127.0.0.1', ca))
+                    row.append((ca, ix is not None, bytes(ix.rxbs) if ix is not None else b"",
+                                bool(ix.cutoff) if ix is not None else True, list(delivered[ca])))
+                out.append(row)
+        except Exception as ex:
+            out.append((exc_name(ex),))
+        return out, {ca: getattr(socks[ca], "got", b"") for ca in cas}
+    finally:
+        serving.socket = saved
+
+
+def run_client_all(passes):
+    """passes: list of [recv results]; one TcpClientStack.serviceAll() per element.
+    obs per pass = ([delivered packets... cumulative], rxbs, cutoff, unconsumed)"""
+    from ioflo.aio.tcp import clienting
+    from ioflo.aio.proto import stacking
+    from ioflo.base import storing
+    w = World()
+    saved = clienting.socket
+    clienting.socket = FakeSocketModule(w, "client")
+    out = []
+    try:
+        delivered = []
+
+        class Recording(stacking.TcpClientStack):
+            def _serviceOneRxPkt(self):
+                delivered.append(bytes(self.rxPkts[0].packed))
+                super(Recording, self)._serviceOneRxPkt()
+
+        store = storing.Store(stamp=0.0)
+        client = clienting.Client(ha=('127.0.0.1', 9000), store=store)
+        stack = Recording(handler=client, stamper=store, ha=('127.0.0.1', 9000))
+        try:
+            stack.serviceAll()
+            assert client.connected
+            sock = client.cs
+            for orc in passes:
+                sock.recv_orc = list(orc)
+                stack.serviceAll()
+                out.append((list(delivered), bytes(stack.rxbs), bool(client.cutoff), len(sock.recv_orc)))
+                sock.recv_orc = []
+        except Exception as ex:
+            out.append((exc_name(ex),))
+        return out, getattr(client.cs, "got", b"") if client.cs is not None else b""
+    finally:
+        clienting.socket = saved
